@@ -61,9 +61,9 @@ variable (σ : St) (t : Nat)
   all_goals rfl
 @[simp] theorem mgrDone_wdata (k : MK) : (mgrDone σ t k).wdata = σ.wdata := by
   unfold mgrDone; simp only []; repeat' split
-  all_goals first | rfl | exact sendDone_wdata σ t _ | (simp only [recvDropTail_wdata, sendDropTail_wdata]; rfl)
+  all_goals first | rfl | exact sendDone_wdata σ t _ | (simp only [recvDropTail_wdata, sendDropTail_wdata]; done) | (simp only [recvDropTail_wdata, sendDropTail_wdata]; rfl)
 @[simp] theorem freeEnd_wdata (k : MK) : (freeEnd σ t k).wdata = σ.wdata := by
-  unfold freeEnd; split <;> (simp only [mgrDone_wdata]; try rfl)
+  unfold freeEnd; (simp only [mgrDone_wdata]; try rfl)
 @[simp] theorem freeTail_wdata (k : MK) : (freeTail σ t k).wdata = σ.wdata := by
   unfold freeTail; repeat' split
   all_goals first | rfl | (simp only [mgrDone_wdata]; try rfl)
